@@ -2817,6 +2817,10 @@ HMCPread(accrec_t *access_rec, /* IN: access record to mess with */
     if (access_rec->posn + length > (info->length * info->nt_size))
         length = (info->length * info->nt_size) - access_rec->posn;
 
+    /* the position may have been moved past the end of the element */
+    if (length < 0)
+        HGOTO_ERROR(DFE_RANGE, FAIL);
+
     /* should chunk indices be updated with relative_posn?
        or did last operation update it already */
     update_chunk_indices_seek(access_rec->posn, info->ndims, info->nt_size, info->seek_chunk_indices,
